@@ -422,7 +422,23 @@ func runDriver(c *harness.Ctx) harness.Result {
 	}
 	desc := fmt.Sprintf("drop_frames=%q keep_frames=%q prune_from=%q", e[0], e[1], pf)
 	res := harness.Result{NonTrivial: true, Sig: desc + fmt.Sprint(len(p.Sample), c.Index), Sample: map[string]any{"options": desc}}
-	out, ui, rr := drv.Report(map[string]*profile.Profile{"p": p}, []string{"p"}, map[string]bool{"proto": true, "addresses": true}, map[string]string{"prune_from": pf}, nil, nil, nil)
+	profs, srcs, extra := map[string]*profile.Profile{"p": p}, []string{"p"}, 0
+	if r.Intn(3) == 0 {
+		// a second source with rules of its own: the rules of the first source listed apply
+		o := exprs[r.Intn(len(exprs))]
+		p2 := &profile.Profile{DropFrames: o[0], KeepFrames: o[1], Sample: []*profile.Sample{{Value: make([]int64, len(p.SampleType)), Label: map[string][]string{"id": {"x"}}}}}
+		if r.Intn(2) == 0 {
+			p2.KeepFrames = ".*"
+		}
+		for _, st := range p.SampleType {
+			p2.SampleType = append(p2.SampleType, &profile.ValueType{Type: st.Type, Unit: st.Unit})
+		}
+		p2.Sample[0].Value[0] = 1
+		profs["p2"], srcs, extra = p2, []string{"p", "p2"}, 1
+		desc += fmt.Sprintf(" + second source with drop_frames=%q keep_frames=%q", p2.DropFrames, p2.KeepFrames)
+		c.Stat("driver_runs_two_sources", 1)
+	}
+	out, ui, rr := drv.Report(profs, srcs, map[string]bool{"proto": true, "addresses": true}, map[string]string{"prune_from": pf}, nil, nil, nil)
 	if rr.Panic != "" {
 		return harness.Violation("%s: panic %s", desc, rr.Panic)
 	}
@@ -434,8 +450,8 @@ func runDriver(c *harness.Ctx) harness.Result {
 		return harness.Violation("%s: output unparseable: %v", desc, err)
 	}
 	c.Stat("driver_runs", 1)
-	if len(got.Sample) != len(p.Sample) {
-		res.Verdict, res.Detail = harness.Violated, fmt.Sprintf("%s: %d samples in, %d out", desc, len(p.Sample), len(got.Sample))
+	if len(got.Sample) != len(p.Sample)+extra {
+		res.Verdict, res.Detail = harness.Violated, fmt.Sprintf("%s: %d samples in, %d out", desc, len(p.Sample)+extra, len(got.Sample))
 		return res
 	}
 	known := ""
@@ -443,6 +459,9 @@ func runDriver(c *harness.Ctx) harness.Result {
 		id := ""
 		if v := s.Label["id"]; len(v) == 1 {
 			id = v[0]
+		}
+		if id == "x" && extra == 1 {
+			continue
 		}
 		w, ok := want[id]
 		if !ok {
